@@ -298,11 +298,14 @@ inductive BinOp where
   | add | sub | mul | div | pow | matmul
 deriving DecidableEq, Repr
 
-/-- left operand of a pending operation: number, 1-d array, (sparse) matrix with `k` columns -/
+/-- left operand of a pending operation: number, 1-d array, (sparse) matrix with `k` columns;
+    `scalLn a L` is the number `a` together with the binary64 value `L` of `np.log(a)` (the logarithm is
+    outside the rational model, so its value travels as data; it is only used by `a ** AdArray`) -/
 inductive Const where
   | scal (a : Rat)
   | vec (w : Vec)
   | mat (M : Mat) (k : Nat)
+  | scalLn (a L : Rat)
 deriving DecidableEq, Repr
 
 def natPow (a : Rat) : Nat → Rat
@@ -342,8 +345,25 @@ def zipWithM' (f : Rat → Rat → Except Err Rat) : Vec → Vec → Except Err 
       pure (c :: cs)
   | _, _ => .ok []
 
-/-- `a ∘ z` for the operand / operation combinations that are meaningful in Python -/
-def specLeft (op : BinOp) (a : Const) (z : DVal) : Except Err DVal :=
+/-- row `i` of `J` scaled by `cs[i]` (`sps.diags(cs) * J`, `AdArray._diagvec_mul_jac`) -/
+def scaleRows (cs : Vec) (J : Mat) : Mat := List.zipWith (fun c row => row.map (c * ·)) cs J
+
+/-- forward-mode rule of `s / x` (`AdArray.__rtruediv__`: `x ** (-1.0) * s`): value `s / vᵢ`,
+    Jacobian row `i` scaled by `-s / vᵢ²`; division by zero is reported -/
+def divAd (s : Rat) (v : Vec) (m : Nat) (J : Mat) : Except Err DVal :=
+  match mapE (ewise .div s) v with
+  | .error e => .error e
+  | .ok val => .ok (.ad val m (scaleRows (v.map (fun x => -s / (x * x))) J))
+
+/-- forward-mode rule of `s ** x` (`AdArray.__rpow__`), for integral values of `x` (then `s ** vᵢ` is
+    rational): value `s ** vᵢ`, Jacobian row `i` scaled by `s ** vᵢ · ln s`, with `L` standing for `ln s` -/
+def powAd (s L : Rat) (v : Vec) (m : Nat) (J : Mat) : Except Err DVal :=
+  match mapE (ratPow s) v with
+  | .error e => .error e
+  | .ok val => .ok (.ad val m (scaleRows (val.map (· * L)) J))
+
+/-- `a ∘ z` for the operand / operation combinations that are meaningful in Python (all but `a ** AdArray`) -/
+def specLeft₀ (op : BinOp) (a : Const) (z : DVal) : Except Err DVal :=
   match a, op, z with
   -- number ∘ array: elementwise
   | .scal _, .matmul, _ => .error .unsupported
@@ -354,6 +374,7 @@ def specLeft (op : BinOp) (a : Const) (z : DVal) : Except Err DVal :=
   | .scal s, .add, .ad v m J => .ok (.ad (v.map (s + ·)) m J)
   | .scal s, .sub, .ad v m J => .ok (.ad (v.map (s - ·)) m (J.map (fun row => row.map (fun x => -x))))
   | .scal s, .mul, .ad v m J => .ok (.ad (v.map (s * ·)) m (J.map (fun row => row.map (s * ·))))
+  | .scal s, .div, .ad v m J => divAd s v m J
   -- 1-d array ∘ 1-d array: elementwise, `@` is the inner product
   | .vec w, .matmul, .vec v => if w.length != v.length then .error .valueError else .ok (.scal (dot w v))
   | .vec w, .matmul, .arr m X =>
@@ -367,6 +388,13 @@ def specLeft (op : BinOp) (a : Const) (z : DVal) : Except Err DVal :=
   | .mat M k, .matmul, .ad v m J =>
       if k != v.length then .error .valueError else .ok (.ad (matVec M v) m (matMul M J m))
   | _, _, _ => .error .unsupported
+
+/-- `a ∘ z`: a number that carries its logarithm behaves as the number, and additionally supports `a ** AdArray` -/
+def specLeft (op : BinOp) (a : Const) (z : DVal) : Except Err DVal :=
+  match a, op, z with
+  | .scalLn s L, .pow, .ad v m J => powAd s L v m J
+  | .scalLn s _, op, z => specLeft₀ op (.scal s) z
+  | a, op, z => specLeft₀ op a z
 
 /-- `eval("self._pending_operand <op> sliced")` for a non-slicer operand -/
 def applyLeft (op : BinOp) (a : Const) (z : Val) : Except Err Val := ofD <$> specLeft op a (obs z)
